@@ -11,6 +11,7 @@
 -/
 import SnowProofs.Lemmas.FlakeStats
 import SnowProofs.Lemmas.FlakeCex
+import SnowProofs.Props.C06
 
 namespace Snow.C12
 open Snow Num Snow.Flake Snow.FlakeLemmas Snow.FlakeRun Snow.FlakeStats Snow.FlakeStatsLemmas Snow.FlakeCex
@@ -55,22 +56,43 @@ theorem Tnuc_supercooled (hi : i < inp.nVials) (T : ℝ) (hT : (finalV inp kCN i
   exact Tnuc_lt (vtraj_chain inp kCN i hi) (fresh_start inp kCN i hi) (NN inp)
     (by rw [vtraj_length]; unfold NN; omega) T hT
 
-/-- … and is **the vial's temperature in the nucleating step**: the liquid (sensible) update
-`T + q/hl·dt` of the temperature stored in the column before the first ice. -/
+/-- … and is **the vial's temperature in the nucleating step**: with `k₀` the first column showing
+ice, `S = traj[k₀−1]` the batch state stored in the column before and `T_sh = T_shelf[k₀−1]`,
+`T_nucleation[i] = X_T[i, k₀−1] + q/hl·dt` where `q = heatFlow p (temps S) T_sh T_sh i` is the vial's
+ACTUAL net heat flow in step `k₀−1` (neighbours + surroundings + shelf, C01) — the temperature after
+that step's liquid update, which is below `T_eq_l`. -/
 theorem Tnuc_step_temperature (h : Hyp inp kCN i) (hice : never 0 (sigmaRow inp kCN i) = false) :
     0 < crossIdx 0 (sigmaRow inp kCN i) ∧
-    ∃ (q : ℝ) (Tpre : ℝ), (tempRow inp kCN i)[crossIdx 0 (sigmaRow inp kCN i) - 1]? = some Tpre ∧
-      (finalV inp kCN i).TNuc = some (Tpre + q / inp.p.c.hl * inp.p.dt) ∧
-      Tpre + q / inp.p.c.hl * inp.p.dt < inp.p.c.T_eq_l := by
+    ∃ (S : State ℝ) (Tsh Tpre : ℝ),
+      (runWith inp kCN).traj[crossIdx 0 (sigmaRow inp kCN i) - 1]? = some S ∧
+      (runWith inp kCN).Tshelf[crossIdx 0 (sigmaRow inp kCN i) - 1]? = some Tsh ∧
+      (tempRow inp kCN i)[crossIdx 0 (sigmaRow inp kCN i) - 1]? = some Tpre ∧
+      (finalV inp kCN i).TNuc
+        = some (Tpre + heatFlow inp.p (temps S) Tsh Tsh i / inp.p.c.hl * inp.p.dt) ∧
+      Tpre + heatFlow inp.p (temps S) Tsh Tsh i / inp.p.c.hl * inp.p.dt < inp.p.c.T_eq_l := by
   obtain ⟨hk, hpos, hfirst⟩ := row_cross inp kCN i 0 hice
-  obtain ⟨h0, _, q, hq, hT⟩ := tnuc_of_first_ice (vtraj_chain inp kCN i h.vial) (fresh_start inp kCN i h.vial)
-    h.adm _ (NN inp) hpos hfirst (le_of_lt hk) (by rw [vtraj_length]; unfold NN; omega)
-  rw [nth_final] at hT
-  refine ⟨h0, q, (nth (vtraj inp kCN i) (crossIdx 0 (sigmaRow inp kCN i) - 1)).T, ?_, ?_, ?_⟩
-  · rw [← tempRow_get inp kCN i _ (by omega)]
+  have hc := vtraj_chain inp kCN i h.vial
+  have hlen : (vtraj inp kCN i).length = NN inp + 1 := vtraj_length inp kCN i
+  obtain ⟨h0, _, _, _, _⟩ := tnuc_of_first_ice hc (fresh_start inp kCN i h.vial)
+    h.adm _ (NN inp) hpos hfirst (le_of_lt hk) (by omega)
+  obtain ⟨j, hj⟩ : ∃ j, crossIdx 0 (sigmaRow inp kCN i) = j + 1 := ⟨_, (Nat.succ_pred_eq_of_pos h0).symm⟩
+  rw [hj] at hpos hfirst hk ⊢
+  have hz : (nth (vtraj inp kCN i) j).sigma = 0 :=
+    le_antisymm (not_lt.mp (hfirst j (by omega))) (h.adm.nonneg j (by omega))
+  obtain ⟨S, Tsh, hS, hT, hN⟩ := Tnuc_exact inp kCN i j h.vial (by omega) hz (ne_of_gt hpos)
+  have keep := solid_keeps hc (j + 1) (NN inp) (by omega) (by omega)
+    (fun j' h1 h2 => ne_of_gt (h.adm.keeps (j + 1) j' h1 (by omega) hpos))
+  rw [nth_final] at keep
+  have hfin : (finalV inp kCN i).TNuc
+      = some ((nth (vtraj inp kCN i) j).T + heatFlow inp.p (temps S) Tsh Tsh i / inp.p.c.hl * inp.p.dt) := by
+    rw [keep.2, hN]
+  refine ⟨Nat.succ_pos j, S, Tsh, (nth (vtraj inp kCN i) j).T, ?_, ?_, ?_, hfin, ?_⟩
+  · simpa using hS
+  · simpa using hT
+  · simp only [Nat.add_sub_cancel]
+    rw [← tempRow_get inp kCN i j (by omega)]
     exact List.getElem?_eq_getElem _
-  · simpa [midT, liquidTemp] using hT
-  · simpa [midT, liquidTemp] using hq
+  · exact Tnuc_supercooled h.vial _ hfin
 
 /-- **the solidification time**: if some column of vial `i` is above the threshold, then
 `t_solidification[i] = t[k₁] − t_nucleation[i]` with `k₁` the first such column; if none is,
@@ -171,15 +193,20 @@ theorem fromStates_times_eq (h : Hyp inp kCN i)
     simp [hn, hb2, optSub, s2 hb2]
 
 /-- **values derived from the stored states** (temperature) — the true weaker statement:
-`nucleationTemperatures(fromStates=True)` returns the temperature stored in the column BEFORE the
-first ice, and the recorded `T_nucleation` is that temperature plus the sensible update `q/hl·dt`
-of the nucleating step: the two differ by exactly one step's temperature change
-(they are NOT equal, see `fromStates_Tnuc_counterexample`). -/
+`nucleationTemperatures(fromStates=True)` returns `Tpre = X_T[i, k₀−1]`, the temperature stored in the
+column BEFORE the first ice, and the recorded `T_nucleation` is `Tpre + q/hl·dt` with `q` the vial's
+ACTUAL net heat flow in step `k₀−1` (`heatFlow` of the stored batch state and shelf sample): the two
+differ by exactly that step's sensible temperature change (they are NOT equal, see
+`fromStates_Tnuc_counterexample`). -/
 theorem fromStates_Tnuc_within_one_step (h : Hyp inp kCN i) (hice : never 0 (sigmaRow inp kCN i) = false) :
-    ∃ (q Tpre : ℝ), TNucStates [true] [tempRow inp kCN i] [sigmaRow inp kCN i] = [some Tpre] ∧
-      (finalV inp kCN i).TNuc = some (Tpre + q / inp.p.c.hl * inp.p.dt) := by
-  obtain ⟨h0, q, Tpre, hT, hN, _⟩ := Tnuc_step_temperature h hice
-  refine ⟨q, Tpre, ?_, hN⟩
+    ∃ (S : State ℝ) (Tsh Tpre : ℝ),
+      (runWith inp kCN).traj[crossIdx 0 (sigmaRow inp kCN i) - 1]? = some S ∧
+      (runWith inp kCN).Tshelf[crossIdx 0 (sigmaRow inp kCN i) - 1]? = some Tsh ∧
+      TNucStates [true] [tempRow inp kCN i] [sigmaRow inp kCN i] = [some Tpre] ∧
+      (finalV inp kCN i).TNuc
+        = some (Tpre + heatFlow inp.p (temps S) Tsh Tsh i / inp.p.c.hl * inp.p.dt) := by
+  obtain ⟨h0, S, Tsh, Tpre, hS, hTs, hT, hN, _⟩ := Tnuc_step_temperature h hice
+  refine ⟨S, Tsh, Tpre, hS, hTs, ?_, hN⟩
   simp only [TNucStates, scatter, List.zip_cons_cons, List.zip_nil_right, List.map_cons, List.map_nil, zero_real,
     hice]
   simp [getWrapPrev, Nat.ne_of_gt h0, hT]
@@ -348,15 +375,82 @@ theorem fromStates_times_eq_all (inp : Inputs ℝ) (kCN : Nat) (hall : ∀ i, i 
 theorem hyp_jump_of_valid (ph : Phys) (hv : ph.Valid) (p : Params ℝ) (hc : p.c = ph.consts) : JumpPos p :=
   jumpPos_of_valid ph hv p hc
 
+/-- **the rows the theorems speak about are rows of the model's stored matrix** (full recording):
+column `k` of `Result.X` holds `tempRow i` at position `i` and `sigmaRow i` at position `n + i` —
+exactly what the accessors read as `X_T[i, k]` and `X_sigma[i, k]`. -/
+theorem rows_are_stored_matrix (inp : Inputs ℝ) (kCN i k : Nat) (hi : i < inp.nVials) (hk : k < NN inp) :
+    ∃ col, ((runWith inp kCN).X (List.replicate inp.nVials true))[k]? = some col ∧
+      col[i]? = (tempRow inp kCN i)[k]? ∧ col[inp.nVials + i]? = (sigmaRow inp kCN i)[k]? ∧
+      (tempRow inp kCN i)[k]? ≠ none :=
+  X_rows inp kCN i k hi hk
+
+/-- **where the monitored hypothesis comes from**: `Hyp.adm` follows from C06's run invariant
+`C06.TrajAdm` (every vial of every stored column is liquid with no record, or holds `0 < σ < 1` on
+the equilibrium curve with a record), which C06 `run_admissible_partial` derives from the stability
+condition `Stable` and the per-step side condition `SideCond` — itself monitored on the real runs.
+So the trajectory hypothesis of the C12 theorems is exactly C06's conditional invariant. -/
+theorem adm_of_trajAdm {ph : Phys} (inp : Inputs ℝ) (kCN i : Nat) (hi : i < inp.nVials) (hdt : 0 < inp.p.dt)
+    (hadm : C06.TrajAdm ph inp.p kCN 0 (profile inp.oc inp.p.dt) (init inp)) :
+    Adm (vtraj inp kCN i) := by
+  have hlen : (vtraj inp kCN i).length = NN inp + 1 := vtraj_length inp kCN i
+  have colAdm : ∀ j, j < NN inp → ∃ (S : State ℝ) (v : Vial ℝ), (runWith inp kCN).traj[j]? = some S ∧
+      S.vials[i]? = some v ∧ nth (vtraj inp kCN i) j = v ∧ C06.Adm ph v := by
+    intro j hj
+    obtain ⟨S, v, hS, hv, hn⟩ := col_vial inp kCN i j hi hj
+    refine ⟨S, v, hS, hv, hn, ?_⟩
+    have hS' : (trajList inp.p kCN 0 (profile inp.oc inp.p.dt) (init inp))[j]? = some S := by
+      rw [← runWith_traj, Array.getElem?_toList]; exact hS
+    exact hadm j S hS' i v hv
+  constructor
+  · intro j hj
+    obtain ⟨S, v, _, _, hn, ha⟩ := colAdm j (by omega)
+    rw [hn]
+    rcases ha with ha | ha
+    · rw [ha.1]
+    · exact le_of_lt ha.1
+  · intro j m hjm hm hpos
+    obtain ⟨Sj, vj, hSj, hvj, hnj, _⟩ := colAdm j (by omega)
+    obtain ⟨Sm, vm, hSm, hvm, hnm, ham⟩ := colAdm m (by omega)
+    obtain ⟨vf, hf, hiff⟩ := C06.ice_iff_recorded inp kCN hdt hadm j Sj hSj i vj hvj
+    obtain ⟨vf', hf', hiff'⟩ := C06.ice_iff_recorded inp kCN hdt hadm m Sm hSm i vm hvm
+    rw [hf] at hf'
+    have e : vf = vf' := Option.some.inj hf'
+    subst e
+    rw [hnj] at hpos
+    obtain ⟨t, ht, hle⟩ := hiff.mp (ne_of_gt hpos)
+    have hne : vm.sigma ≠ 0 :=
+      hiff'.mpr ⟨t, ht, le_trans hle ((timeAt_mono inp.p.dt hdt j m).mpr hjm)⟩
+    rw [hnm]
+    exact (C06.adm_solid ham hne).1
+
 /-! ### non-vacuity -/
 
-/-- the hypotheses are satisfiable on a concrete run in which the vial nucleates AND crosses the
-solidification threshold within the recorded columns (one vial, three steps) -/
+/-- every hypothesis set of the theorems above is satisfiable on ONE concrete run (one vial, three
+steps, the vial nucleates in step 0 and is above the threshold from column 1 on): `Hyp`
+(`tnuc_first_ice`, `tsol_def`, …), visible ice and a visible threshold crossing
+(`tnuc_first_ice`, `Tnuc_step_temperature`, `tsol_def`), the visibility premise of
+`fromStates_times_eq(_all)`, the all-vials premise and an on-grid column of `counter_nuc_stats`,
+and the premises `i < nVials`, `τ`/`T`/`d` recorded of `tnuc_grid`, `Tnuc_supercooled`, `tsol_nonneg`,
+`tsol_only_if_nucleated`. -/
 theorem nonvacuous (kCN : Nat) :
     Hyp (cexInp 2) kCN 0 ∧ never 0 (sigmaRow (cexInp 2) kCN 0) = false ∧
-      never (cexInp 2).p.threshold (sigmaRow (cexInp 2) kCN 0) = false := by
-  refine ⟨⟨by simp [cexInp], by simp [cexInp], by simp [cexInp], cex_jumpPos 2, cex2_adm kCN⟩, ?_, ?_⟩
-  · rw [cex2_sigmaRow]; simp [never]
+      never (cexInp 2).p.threshold (sigmaRow (cexInp 2) kCN 0) = false ∧
+      ((finalV (cexInp 2) kCN 0).tNuc ≠ none → never 0 (sigmaRow (cexInp 2) kCN 0) = false) ∧
+      (∀ i, i < (cexInp 2).nVials → Hyp (cexInp 2) kCN i) ∧ 1 < NN (cexInp 2) ∧
+      (0 < (cexInp 2).nVials) ∧ (finalV (cexInp 2) kCN 0).tNuc = some 1 ∧
+      (finalV (cexInp 2) kCN 0).TNuc = some (-20) ∧ (finalV (cexInp 2) kCN 0).tSol = some 0 := by
+  have hH : Hyp (cexInp 2) kCN 0 :=
+    ⟨by simp [cexInp], by simp [cexInp], by simp [cexInp], cex_jumpPos 2, cex2_adm kCN⟩
+  have h0 : never 0 (sigmaRow (cexInp 2) kCN 0) = false := by rw [cex2_sigmaRow]; simp [never]
+  have hfin : (runWith (cexInp 2) kCN).final = _ := cex2_final kCN
+  refine ⟨hH, h0, ?_, fun _ => h0, ?_, ?_, by simp [cexInp], ?_, ?_, ?_⟩
   · rw [cex2_sigmaRow]; simp [never, cexInp]; norm_num
+  · intro i hi
+    have : i = 0 := by simp [cexInp] at hi; exact hi
+    subst this; exact hH
+  · rw [cex_NN2]; norm_num
+  · rw [finalV, hfin]; exact (cex_step2 2 kCN _).1
+  · rw [finalV, hfin]; exact (cex_step2 2 kCN _).2.1
+  · rw [finalV, hfin]; exact (cex_step2 2 kCN _).2.2
 
 end Snow.C12
